@@ -527,6 +527,10 @@ type QueueCase struct {
 	// Future: the records carry time stamps some days ahead of the host clock (the producer's clock, or a log
 	// line's own time stamp, is not the agent's): waiting times are intervals, not comparisons with the wall clock
 	Future bool `json:"future,omitempty"`
+	// IdleFirst / IdleMid: the sender sits idle for this many waiting times (its run loop times out on the empty queue
+	// that often) before the producers start / between the first and the second half of every producer's records
+	IdleFirst int `json:"idle_first,omitempty"`
+	IdleMid   int `json:"idle_mid,omitempty"`
 }
 
 func runQueue(c QueueCase) *pbt.Result {
@@ -541,6 +545,7 @@ func runQueue(c QueueCase) *pbt.Result {
 	total := 0
 	perProducer := make([][][]byte, len(c.Producers))
 	var wg sync.WaitGroup
+	var halves [][2][]*pack.LogSinkPack
 	for pi, recs := range c.Producers {
 		total += len(recs)
 		packs := make([]*pack.LogSinkPack, len(recs))
@@ -553,15 +558,26 @@ func runQueue(c QueueCase) *pbt.Result {
 			packs[i] = mkRecord(r, tm, int64(pi)<<32|int64(i+1))
 			perProducer[pi] = append(perProducer[pi], encodeRec(packs[i]))
 		}
-		wg.Add(1)
-		go func(packs []*pack.LogSinkPack) {
-			defer wg.Done()
-			for _, p := range packs {
-				z.Add(p)
-			}
-		}(packs)
+		halves = append(halves, [2][]*pack.LogSinkPack{packs[:len(packs)/2], packs[len(packs)/2:]})
 	}
-	wg.Wait()
+	if c.IdleFirst > 0 {
+		time.Sleep(time.Duration(c.IdleFirst*c.IdleMs+10) * time.Millisecond)
+	}
+	for round := 0; round < 2; round++ {
+		if round == 1 && c.IdleMid > 0 {
+			time.Sleep(time.Duration(c.IdleMid*c.IdleMs+10) * time.Millisecond)
+		}
+		for _, h := range halves {
+			wg.Add(1)
+			go func(packs []*pack.LogSinkPack) {
+				defer wg.Done()
+				for _, p := range packs {
+					z.Add(p)
+				}
+			}(h[round])
+		}
+		wg.Wait()
+	}
 	// wait until the run loop has drained the queue and flushed on idle time-out (bounded safety: 30 s)
 	deadline := time.Now().Add(30 * time.Second)
 	emitted := func() int {
@@ -629,16 +645,22 @@ func runQueue(c QueueCase) *pbt.Result {
 			return pbt.Fail("emitted record %d is not the next record of any producer (lost, duplicated or reordered)", k)
 		}
 	}
-	return &pbt.Result{NT: npacks >= 2 || len(c.Producers) >= 2, Classes: []string{fmt.Sprintf("producers=%d", len(c.Producers)), fmt.Sprintf("packs=%s", bucket(npacks))}}
+	return &pbt.Result{NT: npacks >= 2 || len(c.Producers) >= 2, Classes: []string{fmt.Sprintf("producers=%d", len(c.Producers)), fmt.Sprintf("packs=%s", bucket(npacks)), fmt.Sprintf("idle-before-records=%v", c.IdleFirst+c.IdleMid > 0)}}
 }
 
 var specQueue = pbt.Register(pbt.Spec[QueueCase]{
 	Prop: "C16", Name: "queue-mode",
-	Rule:  "1-4 producer goroutines Add generated records (a third of the cases: stamped ten days ahead of the host clock) to a fresh sender in queue mode whose real run() goroutine batches them (idle time-out 20-50 ms); after the queue has drained the sender is stopped; oracle (sound for any schedule) = every record emitted exactly once, each producer's records in order, RecordCount/compression/decodability per pack, no pack altered after hand-over; non-trivial = >= 2 packs or >= 2 producers; distinct by case",
+	Rule:  "1-4 producer goroutines Add generated records (a third of the cases: stamped ten days ahead of the host clock) to a fresh sender in queue mode whose real run() goroutine batches them (idle time-out 20-50 ms); in half of the cases the sender has been idle for 1-4 waiting times before the first record, in half it is idle for 1-3 waiting times between the two halves of the producers' records; after the queue has drained the sender is stopped; oracle (sound for any schedule) = every record emitted exactly once, each producer's records in order, RecordCount/compression/decodability per pack, no pack altered after hand-over; non-trivial = >= 2 packs or >= 2 producers; distinct by case",
 	Quick: 30, Thorough: 1000,
 	Draw: func(t *rapid.T) QueueCase {
 		c := QueueCase{Buf: rapid.OneOf(rapid.IntRange(1, 2000), rapid.IntRange(1, 65536)).Draw(t, "buf"), IdleMs: rapid.IntRange(20, 50).Draw(t, "idle"), ZipMin: rapid.IntRange(0, 600).Draw(t, "zipmin"),
 			Future: rapid.IntRange(0, 2).Draw(t, "future") == 0}
+		if rapid.Bool().Draw(t, "idle-first?") {
+			c.IdleFirst = rapid.IntRange(1, 4).Draw(t, "idle-first")
+		}
+		if rapid.Bool().Draw(t, "idle-mid?") {
+			c.IdleMid = rapid.IntRange(1, 3).Draw(t, "idle-mid")
+		}
 		np := rapid.IntRange(1, 4).Draw(t, "producers")
 		for i := 0; i < np; i++ {
 			n := rapid.IntRange(1, 25).Draw(t, "n")
